@@ -59,6 +59,8 @@ type Obligation struct {
 	Secs   float64
 	// Retried: decided only in the second-chance phase (longer limit)
 	Retried bool
+	// Confirmed: other solvers that also answered unsat (thorough tier cross-check)
+	Confirmed []string
 	Model  string
 	Query  string
 }
